@@ -3845,6 +3845,7 @@ class SFTPClient:
         self._path_encoding = path_encoding
         self._path_errors = path_errors
         self._cwd: Optional[bytes] = None
+        self._copied_links: Set[bytes] = set()
 
     async def __aenter__(self) -> Self:
         """Allow SFTPClient to be used as an async context manager"""
@@ -4008,6 +4009,21 @@ class SFTPClient:
                     srcfile = posixpath.join(srcpath, filename)
                     dstfile = posixpath.join(dstpath, filename)
 
+                    if dstfile in self._copied_links and \
+                            srcname.attrs.type != FILEXFER_TYPE_SYMLINK:
+                        # Don't write through a symbolic link which was
+                        # created from an earlier entry of the same name
+                        exc = SFTPFailure('Destination is a symbolic link')
+
+                        setattr(exc, 'srcpath', srcfile)
+                        setattr(exc, 'dstpath', dstfile)
+
+                        if error_handler:
+                            error_handler(exc)
+                            continue
+                        else:
+                            raise exc
+
                     await self._copy(srcfs, dstfs, srcfile, dstfile,
                                      srcname.attrs, preserve, recurse,
                                      follow_symlinks, sparse, block_size,
@@ -4024,6 +4040,7 @@ class SFTPClient:
                 self.logger.info('    Target path: %s', targetpath)
 
                 await dstfs.symlink(targetpath, dstpath)
+                self._copied_links.add(dstpath)
             else:
                 self.logger.info('  Copying file %s to %s', srcpath, dstpath)
 
